@@ -37,8 +37,8 @@ DIRECTED_ENUM = ('enum DE { DE_A = 0, DE_B = 1 };\nunion DU { 0: u8 a; 1: u32 b;
 DIRECTED_ALIGN = ('struct DA { u8 n; u8 x<@n>; u32 y; };\nstruct DB { bytes a<>; u32 b; };\nstruct DC { u16 a; u64 b; };\n', 'dalign', None)
 
 
-DIRECTED_NAMES = ('enum DEnd { little = 0, big = 1, middle = 5 };\nstruct DEndS { DEnd e; DEnd f[3]; };\n'
-                  'struct DCnt { u32 decode; u8 a<@decode>; u16 copy_from; bytes b<@copy_from>; u8 z; };\n', 'dnames', None)
+# (enumerators named native / little / big are refused by the C++ generators since 633258e: see checks/accept.py DIRECTED)
+DIRECTED_NAMES = ('struct DCnt { u32 decode; u8 a<@decode>; u16 copy_from; bytes b<@copy_from>; u8 z; };\n', 'dnames', None)
 
 
 def captured_enumerator(tree):
